@@ -136,6 +136,34 @@ pub fn draw_threaded(case: &mut Case, rng: &mut crate::rng::Rng) {
     case.cfg.insert("threads".into(), json!(threads));
     case.cfg.insert("sim".into(), json!(true));
     case.cfg.insert("sched_seed".into(), json!(rng.next() >> 1));
+    // Engine-level runs: the yield points inside the lock-free helpers are
+    // reachable while a DashMap shard guard is held, where parking a thread
+    // would stall the run; they are exercised by C19's own scenarios instead.
+    let helper_sites: u64 = (1 << verif::site::CVEC)
+        | (1 << verif::site::PWRITER)
+        | (1 << verif::site::NLIST)
+        | (1 << verif::site::ROLOCK)
+        | (1 << verif::site::UF_FIND)
+        | (1 << verif::site::UF_MERGE)
+        | (1 << verif::site::UF_RESIZE);
+    let mut sites = u64::MAX & !helper_sites;
+    if rng.chance(1, 3) {
+        // swarm: drop a random subset of the optional engine sites
+        for s in [
+            verif::site::SPAWN,
+            verif::site::COMPLETE,
+            verif::site::RULE_TASK,
+            verif::site::ACTION_FLUSH,
+            verif::site::TABLE_SHARD,
+            verif::site::REBUILD_CHUNK,
+            verif::site::CONTAINER,
+        ] {
+            if rng.chance(1, 3) {
+                sites &= !(1u64 << s);
+            }
+        }
+    }
+    case.cfg.insert("sites".into(), json!(sites));
     let policy = *rng.pick(&["random", "random", "sticky", "pct", "starve"]);
     case.cfg.insert("policy".into(), json!(policy));
     case.cfg.insert("sticky_p".into(), json!(*rng.pick(&[128u64, 200, 240])));
@@ -170,4 +198,24 @@ pub fn draw_threaded(case: &mut Case, rng: &mut crate::rng::Rng) {
 
 pub fn parse_op(op: &str) -> Option<Sexp> {
     sexp::parse(op).ok()
+}
+
+/// F3: algorithm-switch thresholds ("buggify" knobs), drawn per run.
+pub fn draw_knobs(case: &mut Case, rng: &mut crate::rng::Rng) {
+    let mut m = serde_json::Map::new();
+    let table: [(&str, &[u64]); 7] = [
+        ("table_incremental_rebuild", &[0, 1]),
+        ("container_incremental_rebuild", &[0, 1]),
+        ("bridge_incremental_rebuild", &[0, 1]),
+        ("rehash_min_stale", &[0, 1, 4]),
+        ("merge_all_fast_path", &[0, 1]),
+        ("rebuild_step_size", &[1, 2, 7]),
+        ("stage_resort_threshold", &[0, 1, 4]),
+    ];
+    for (k, vals) in table {
+        if rng.chance(1, 2) {
+            m.insert(k.to_string(), json!(*rng.pick(vals)));
+        }
+    }
+    case.cfg.insert("knobs".into(), Value::Object(m));
 }
